@@ -109,7 +109,7 @@ func guardException(p *core.Prog, fn *ssa.Function, fa *ssa.FieldAddr, write boo
 		for _, a := range fn.AnonFuncs {
 			core.Instrs(a, func(in ssa.Instruction) {
 				if cc := core.CallOf(in); cc != nil {
-					if sc := cc.StaticCallee(); sc != nil && sc.Blocks != nil && sc.Signature.Recv() != nil && fn.Signature.Recv() != nil && core.NamedOf(sc.Signature.Recv().Type()) == core.NamedOf(fn.Signature.Recv().Type()) {
+					if sc := cc.StaticCallee(); sc != nil && sc.Blocks != nil && core.RecvName(sc) != "" && core.RecvName(sc) == core.RecvName(fn) {
 						tails = append(tails, sc)
 					}
 				}
@@ -156,7 +156,7 @@ func guardException(p *core.Prog, fn *ssa.Function, fa *ssa.FieldAddr, write boo
 
 // panicJustification: structural reasons for an explicit panic in library code.
 func panicJustification(p *core.Prog, fn *ssa.Function) string {
-	if reg := registryType(p); reg != nil && fn.Signature.Recv() != nil && core.NamedOf(fn.Signature.Recv().Type()) == reg.Obj().Name() && fn.Name() == "RegisterService" {
+	if reg := registryType(p); reg != nil && core.RecvName(fn) == reg.Obj().Name() && fn.Name() == "RegisterService" {
 		return "C15 contract: refusing an ill-typed or duplicate registration panics (like grpc.Server)"
 	}
 	// a private helper whose only callers are such justified functions shares their justification (the
@@ -824,7 +824,7 @@ func c05Closes(c *core.Ctx, ls *core.LockSets, fns []*ssa.Function) []closeSite 
 					}
 					m = m.Parent()
 				}
-				if m != nil && m.Signature.Recv() != nil {
+				if m != nil && core.RecvName(m) != "" {
 					var sites []ssa.Instruction
 					var siteFns []*ssa.Function
 					for _, g := range fns {
@@ -839,7 +839,7 @@ func c05Closes(c *core.Ctx, ls *core.LockSets, fns []*ssa.Function) []closeSite 
 					// closer as the deferred tail of finish): climb
 					for hop := 0; hop < 3 && len(sites) == 1 && core.LoopOf(siteFns[0])[sites[0].Block()] < 0; hop++ {
 						up := siteFns[0]
-						if up.Parent() != nil || up.Signature.Recv() == nil || core.NamedOf(up.Signature.Recv().Type()) != cs.typ {
+						if up.Parent() != nil || core.RecvName(up) != cs.typ {
 							break
 						}
 						var s2 []ssa.Instruction
@@ -1660,7 +1660,7 @@ func rootOf(fn *ssa.Function) *ssa.Function {
 func c05DoneBeforeFinalWrites(c *core.Ctx, fns []*ssa.Function) {
 	n := 0
 	for _, fn := range fns {
-		if fn.Signature.Recv() == nil || fn.Parent() != nil {
+		if core.RecvName(fn) == "" || fn.Parent() != nil {
 			continue
 		}
 		var cancelCalls []ssa.Instruction
